@@ -58,7 +58,7 @@ def run_streams(pid, P, tier, seed, wdir, root, replay, built, log):
         k = 0
         left = n
         while left > 0:
-            cnt = min(SHARD, left)
+            cnt = min(st.get("shard", SHARD), left)
             shards.append((sseed if k == 0 else sseed * 1000003 + k, cnt, os.path.join(wdir, "%s-%d" % (name, k))))
             left -= cnt
             k += 1
